@@ -454,7 +454,9 @@ func foreignMarkers(got string, sel []int, rn *runner) string {
 		// still the beginning of one of the selected pages' markers
 		cut := false
 		for o := range own {
-			cut = cut || strings.HasPrefix(o, m)
+			// (or one more digit stuck to it: a one-digit margin mark that the assembly put
+			// right behind the marker)
+			cut = cut || strings.HasPrefix(o, m) || (strings.HasPrefix(m, o) && len(m) == len(o)+1 && len(o) >= 4)
 		}
 		if !cut {
 			return m
